@@ -41,11 +41,17 @@ func (op *FsTxn) CommitUnstable() bool {
 
 // Flush log. We don't have to flush data from other file handles, but
 // that is only an option if we do log-by-pass writes.
+//
+// The journal's Flush() waits for the position of the last commit, and
+// a commit that the journal refused (too big) resets that position, so
+// that Flush() would wait for nothing.  Flush through a transaction of
+// our own instead: write back the (unchanged) inodes this transaction
+// holds and commit with wait, which flushes everything logged before.
 func (op *FsTxn) CommitFh() bool {
-	op.preCommit()
-	ok := op.Fs.Txn.Flush()
-	op.postCommit()
-	return ok
+	for _, ip := range op.inodes {
+		ip.WriteInode(op.Atxn)
+	}
+	return op.commitWait(true)
 }
 
 // An aborted transaction may free an inode, which results in dirty
